@@ -256,7 +256,12 @@ def run_case(spec):
         first_diff = first_diff or 'position %d: score %r (corr %r, impact %r) vs %r (corr %r, impact %r), scale %g' % (
             pos, sx, x.get('corr'), x.get('impact'), sy, y.get('corr'), y.get('impact'), c)
     if not scores_equal:
-      violations.append({'clause': 'scores', 'mech': 'invariance:%s:scores' % kind, 'detail': '[%s] %s' % (tag, first_diff)})
+      if tied_panel and kind in ('rename', 'all') and not groups_equal:
+        # exactly tied (twin) geos are ordered by name; after a renaming the greedy path may pick the other twin, and
+        # when the twins' eligibility rows differ the paths - and the final scores - legitimately diverge
+        counters['tie_ambiguous'] += 1
+      else:
+        violations.append({'clause': 'scores', 'mech': 'invariance:%s:scores' % kind, 'detail': '[%s] %s' % (tag, first_diff)})
     elif not groups_equal:
       if tied_panel and kind in ('rename', 'all'):
         # exactly tied geos are ordered by name: only a renaming may legitimately swap them
